@@ -320,13 +320,75 @@ def c16_rpc_burst(rng, count):
     return out
 
 
+def c16_reattach(rng, count):
+    """right peer across a re-attachment: envelopes for X, X attaches again under its name while the old
+    connection is still open and healthy, and the NEXT envelopes through the proxy are for X again (one or
+    several senders, nothing for another destination in between): they belong to the connection now attached"""
+    out = []
+    for k in range(count):
+        ids = Ids()
+        nsend = 1 + k % 3
+        steps = [attach('c%d' % i, i) for i in range(1, nsend + 1)]
+        dialled = k % 4 == 3            # X first exists as a dial-on-demand connection, AddClient replaces it
+        dial = {'s1': 'ok'} if dialled else {}
+        if not dialled:
+            steps.append(attach('s1', 10))
+        before = rng.randint(1, 4)
+        steps.append(w(ids, 1, 'c1', 's1', rep=before))
+        if rng.random() < 0.3:
+            steps.append(Q)
+        steps.append(attach('s1', 11))
+        order = list(range(1, nsend + 1))
+        rng.shuffle(order)
+        for i in order:
+            steps.append(w(ids, i, 'c%d' % i, 's1', rep=rng.randint(1, 3)))
+        steps.append(Q)
+        if k % 2:
+            # the replaced connection is still alive: what its peer writes is still relayed; and once more
+            old = w(ids, 0, 's1', 'c1', dialed='s1') if dialled else w(ids, 10, 's1', 'c1')
+            steps += [old, w(ids, 11, 's1', 'c1'), w(ids, 1, 'c1', 's1', rep=2), attach('s1', 12), w(ids, 1, 'c1', 's1', rep=2), Q]
+        out.append(scen('C16', 're-attach then same destination senders=%d %s #%d' % (nsend, 'dialled' if dialled else 'attached', k),
+                        steps, dial=dial))
+    return out
+
+
+def c16_rpc_reattach(rng, count):
+    """a server attaches again under its name (restart) while calls to it are outstanding; the next calls -
+    nothing else passes through the proxy in between - must reach the new instance"""
+    out = []
+    for k in range(count):
+        nc = 2 + k % 2
+        servers = [dict(name='s1', pre=True)]                       # connection 1; clients are 2, 3, ...
+        clients = [dict(name='c%d' % i, dst='s1') for i in range(1, nc + 1)]
+        hung = k % 2 == 1
+        if hung:
+            # the old instance has stopped reading: a client stream's messages pile up (below the buffer)
+            steps = [fault('stuck', 1), dict(op='sopen', kind='cs', c=1, cli='c1', name='s1', hp=[])]
+            steps += [dict(op='send', c=1, pay='u%d' % i) for i in range(rng.randint(1, 4))]
+        else:
+            # the old instance is slow: its handler answers only after the restart
+            steps = [dict(op='ucall', c=1, cli='c1', name='s1', pay='q1', hp=[])]
+        steps.append(attach('s1', 20))
+        c = 1
+        for i in range(2, nc + 1):
+            c += 1
+            steps += rpc_call(rng, c, 'c%d' % i, 's1', 'unary', 0)
+        if not hung:
+            steps.append(dict(op='hop', c=1, h=dict(o='ret', pay='r1')))
+        c += 1
+        steps += rpc_call(rng, c, 'c2', 's1', rng.choice(['ss', 'bidi']), rng.randint(1, 4)) + [Q]
+        out.append(scen('C16', 'rpc server %s re-attaches, next calls clients=%d #%d' % ('hung' if hung else 'slow', nc, k), steps,
+                        mode='rpc', clients=clients, servers=servers))
+    return out
+
+
 def generate_c16(tier, rng):
     if tier == 'quick':
-        s = c16_single(rng, 150) + c16_seq(rng, 150, 3, 2, 10) + c16_pairorder(rng, 30) + c16_dial(rng, 40) + c16_burst(rng, 30)
-        s += c16_rpc(rng, 88, 3, 2) + c16_rpc_burst(rng, 12)
+        s = c16_single(rng, 125) + c16_seq(rng, 145, 3, 2, 10) + c16_pairorder(rng, 30) + c16_dial(rng, 40) + c16_burst(rng, 30)
+        s += c16_reattach(rng, 30) + c16_rpc(rng, 80, 3, 2) + c16_rpc_burst(rng, 12) + c16_rpc_reattach(rng, 8)
     else:
         s = c16_single(rng, 100000) + c16_seq(rng, 6500, 8, 4, 24) + c16_pairorder(rng, 500) + c16_dial(rng, 800) + c16_burst(rng, 500)
-        s += c16_rpc(rng, 1900, 8, 4) + c16_rpc_burst(rng, 100)
+        s += c16_reattach(rng, 600) + c16_rpc(rng, 1800, 8, 4) + c16_rpc_burst(rng, 100) + c16_rpc_reattach(rng, 100)
     return s
 
 
@@ -465,13 +527,68 @@ def c17_cancel(rng, count):
     return out[:count]
 
 
+def c17_reattach_healthy(rng, count):
+    """b attaches again while its old connection is healthy, right after envelopes for b and with only
+    envelopes for b following; later the OLD connection fails: the newer one must stay registered"""
+    out = []
+    for k in range(count):
+        ids = Ids()
+        kind = ['rfail', 'wfail', None][k % 3]
+        steps = [attach('a', 1), attach('c', 4), attach('b', 2), w(ids, 1, 'a', 'b', rep=rng.randint(1, 3)), attach('b', 3),
+                 w(ids, 1, 'a', 'b', rep=rng.randint(1, 3))]
+        if k % 2:
+            steps.append(w(ids, 4, 'c', 'b', rep=2))
+        steps.append(Q)
+        if kind:
+            steps += [fault(kind, 2), Q]
+        steps += [w(ids, 4, 'c', 'b'), w(ids, 1, 'a', 'b', rep=2), w(ids, 3, 'b', 'a'), Q]
+        out.append(scen('C17', 'reattach healthy-old then same destination, old-%s #%d' % (kind, k), steps))
+    return out
+
+
+HOLDS = [('proxy.enqueue.window', 'nil'), ('px.icpt', 'id'), ('px.cb', 'nil')]
+
+
+def c17_held(rng, count):
+    """the dispatcher (serveClients) is held - in the enqueue window, in the interceptor or in the disconnect
+    callback - while k = 1..4 other peers write: their read loops are parked on the hand-off of an envelope
+    the dispatcher has not taken.  Then the context is cancelled, the dispatcher released: nothing may remain.
+    Without the cancellation the parked envelopes must all be delivered after the release."""
+    out = []
+    k = 0
+    while len(out) < count:
+        gate, ic = HOLDS[k % 3]
+        npeers = 1 + (k // 3) % 4
+        cancel = (k // 12) % 3 != 2
+        k += 1
+        ids = Ids()
+        steps = [attach('a', 1), attach('b', 2)] + [attach('p%d' % i, 2 + i) for i in range(1, npeers + 1)]
+        if gate == 'px.cb':
+            steps += [attach('t', 9), dict(op='arm', gate=gate, n=1), fault('rfail', 9)]
+        else:
+            steps += [dict(op='arm', gate=gate, n=1), w(ids, 1, 'a', 'b')]
+        for i in range(1, npeers + 1):
+            steps.append(w(ids, 2 + i, 'p%d' % i, rng.choice(['a', 'b', 'p1']), rep=rng.randint(1, 2)))
+        if cancel:
+            steps += [dict(op='cancel'), dict(op='rel', gate=gate)]
+            if rng.random() < 0.5:
+                steps.append(w(ids, 1, 'a', 'b'))
+            steps += [dict(op='census'), Q]
+        else:
+            steps += [dict(op='adv', n=1), dict(op='rel', gate=gate), Q, dict(op='cancel'), dict(op='census'), Q]
+        out.append(scen('C17', 'dispatcher held in %s, %d readers parked, %s #%d' % (gate, npeers, 'cancel' if cancel else 'release', k),
+                        steps, icpt=dict(kind=ic)))
+    return out
+
+
 def generate_c17(tier, rng):
     if tier == 'quick':
-        return c17_spoof(rng, 90) + c17_roles(rng, 115) + c17_reattach(rng, 48) + c17_cancel(rng, 64)
+        return (c17_spoof(rng, 80) + c17_roles(rng, 90) + c17_reattach(rng, 42) + c17_reattach_healthy(rng, 12) +
+                c17_cancel(rng, 40) + c17_held(rng, 48))
     s = []
     for i in range(6):
         s += c17_spoof(rng, 135)
-    s += c17_roles(rng, 2100) + c17_reattach(rng, 600)
+    s += c17_roles(rng, 2100) + c17_reattach(rng, 600) + c17_reattach_healthy(rng, 240) + c17_held(rng, 720)
     for i in range(9):
         s += c17_cancel(rng, 1000)
     return s
